@@ -4,8 +4,8 @@
    statements hold for Z, Qc, R, floats-as-a-set...  Operands are arbitrary well-formed coordinate lists: NO hypothesis
    on the stored order.  den_sp = value at a subscript (implicit zeros included), wf_sp = C06 well-formedness. *)
 From Coq Require Import List Arith Bool ZArith.
-From PV Require Import Base.Index Np.Array Model.Sparse Model.Harness Model.C03Ops Model.C03AsIs
-                       Proofs.C03Lemmas Proofs.C03Proofs Proofs.C03AsIsProofs.
+From PV Require Import Base.Index Np.NpZ Np.Array Gen.GenUtils Model.Sparse Model.Harness Model.C03Ops Model.C03Gen Model.C03More
+                       Proofs.C03Lemmas Proofs.C03Proofs Proofs.C03Rows Proofs.C03GenProofs Proofs.C03More.
 Import ListNotations.
 
 Section C03.
@@ -129,11 +129,154 @@ Theorem C03_dense_result_dense : forall (W : Type) (w0 : W) (f : V -> V -> W) (A
   wf_dense (impl_dense_dense v0 f A T) /\ dshape (impl_dense_dense v0 f A T) = sshape A /\
   forall i, inb (sshape A) i = true -> den_dense w0 (impl_dense_dense v0 f A T) i = f (den A i) (den_dense v0 T i).
 Proof. intros W. exact (@impl_dense_dense_correct V v0 W). Qed.
+
+(* ---- tie A: the algorithms that go through the row-set helpers, transliterated over the helpers GENERATED from
+        pyttb_utils.py (Model/C03Gen.v).  Operands of order >= 1 (sshape <> []). ---- *)
+(* the repaired sparse * sparse (tt_intersect_rows, then tt_ismember_rows to locate each common row in the other operand) *)
+Theorem C03_mul_sparse_gen : forall (vmul : V -> V -> V), (forall x, vmul v0 x = v0) -> (forall x, vmul x v0 = v0) ->
+  forall A B : sparse V, wf A -> wf B -> sshape B = sshape A -> sshape A <> [] ->
+  exists R, impl_mul_gen v0 vmul A B = Ok R /\ wf_struct R /\ sshape R = sshape A /\
+            (forall i, den R i = vmul (den A i) (den B i)) /\
+            ((forall x y, x <> v0 -> y <> v0 -> vmul x y <> v0) -> wf R).
+Proof. exact (impl_mul_gen_correct v0 isz isz_spec). Qed.
+
+(* the repaired sparse == sparse *)
+Theorem C03_eq_sparse_gen : forall (one : V), one <> v0 ->
+  forall (veqb : V -> V -> bool), (forall a b, veqb a b = true <-> a = b) ->
+  forall A B : sparse V, wf A -> wf B -> sshape B = sshape A -> sshape A <> [] ->
+  exists R, impl_eq_gen v0 one veqb A B = Ok R /\ wf R /\ sshape R = sshape A /\
+            forall i, inb (sshape A) i = true -> den R i = bval v0 one (veqb (den A i) (den B i)).
+Proof. exact (impl_eq_gen_correct v0 isz isz_spec). Qed.
+
+(* S != c *)
+Theorem C03_ne_scalar_gen : forall (one : V), one <> v0 ->
+  forall (veqb : V -> V -> bool), (forall a b, veqb a b = true <-> a = b) ->
+  forall (A : sparse V) (c : V), wf A -> sshape A <> [] ->
+  exists R, impl_ne_scalar_gen one veqb isz A c = Ok R /\ wf R /\ sshape R = sshape A /\
+            forall i, inb (sshape A) i = true -> den R i = bval v0 one (negb (veqb (den A i) c)).
+Proof. exact (impl_ne_scalar_gen_correct v0 isz isz_spec). Qed.
+
+(* logical_not, the scalar comparisons and the sparse/sparse comparisons over the generated helpers compute, list for
+   list, the algorithms of C03_not / C03_cmp_scalar / C03_cmp_sparse *)
+Theorem C03_not_gen : forall (one : V) (A : sparse V), wf_struct A -> sshape A <> [] ->
+  impl_not_gen one A = Ok (impl_not one A).
+Proof. exact (@impl_not_gen_eq V). Qed.
+
+Theorem C03_cmp_scalar_gen : forall (one : V) (cmp : V -> V -> bool) (A : sparse V) (c : V), wf_struct A -> sshape A <> [] ->
+  impl_cmp_scalar_gen v0 one cmp A c = Ok (impl_cmp_scalar v0 one cmp A c).
+Proof. exact (impl_cmp_scalar_gen_eq v0). Qed.
+
+Theorem C03_cmp_sparse_gen : forall (one : V) (cmp : V -> V -> bool) (A B : sparse V),
+  wf_struct A -> wf_struct B -> sshape B = sshape A -> sshape A <> [] ->
+  impl_cmp_gen v0 one cmp A B = Ok (impl_cmp v0 one cmp A B).
+Proof. exact (impl_cmp_gen_eq v0). Qed.
+
+(* ---- the remaining code paths: logical_and with a dense tensor (via to_sptensor); logical_or / logical_xor with a scalar
+        or a dense tensor (full() then the dense operator: instances of the dense-result theorems); ==, != own paths ---- *)
+Theorem C03_and_dense : forall (one : V), one <> v0 -> forall (A : sparse V) (T : dense V),
+  wf A -> wf_dense T -> dshape T = sshape A ->
+  wf (impl_and_dense v0 isz one A T) /\ sshape (impl_and_dense v0 isz one A T) = sshape A /\
+  forall i, den (impl_and_dense v0 isz one A T) i = bval v0 one (nz (den A i) && nz (den_dense v0 T i)).
+Proof. intros one _. exact (impl_and_dense_correct v0 isz isz_spec one). Qed.
+
+Theorem C03_or_xor_scalar : forall (one : V) (A : sparse V) (c : V), wf_struct A ->
+  let f_or := fun a b => bval v0 one (nz a || nz b) in let f_xor := fun a b => bval v0 one (xorb (nz a) (nz b)) in
+  (forall i, inb (sshape A) i = true -> den_dense v0 (impl_dense_scalar v0 f_or A c) i = f_or (den A i) c) /\
+  (forall i, inb (sshape A) i = true -> den_dense v0 (impl_dense_scalar v0 f_xor A c) i = f_xor (den A i) c).
+Proof.
+  intros one A c W. exact (conj (proj2 (proj2 (impl_dense_scalar_correct v0 v0 _ A c W))) (proj2 (proj2 (impl_dense_scalar_correct v0 v0 _ A c W)))).
+Qed.
+
+Theorem C03_or_xor_dense : forall (one : V) (A : sparse V) (T : dense V), wf_struct A -> wf_dense T -> dshape T = sshape A ->
+  let f_or := fun a b => bval v0 one (nz a || nz b) in let f_xor := fun a b => bval v0 one (xorb (nz a) (nz b)) in
+  (forall i, inb (sshape A) i = true -> den_dense v0 (impl_dense_dense v0 f_or A T) i = f_or (den A i) (den_dense v0 T i)) /\
+  (forall i, inb (sshape A) i = true -> den_dense v0 (impl_dense_dense v0 f_xor A T) i = f_xor (den A i) (den_dense v0 T i)).
+Proof.
+  intros one A T W WT Hs. exact (conj (proj2 (proj2 (impl_dense_dense_correct v0 v0 _ A T W WT Hs))) (proj2 (proj2 (impl_dense_dense_correct v0 v0 _ A T W WT Hs)))).
+Qed.
+
+Theorem C03_eq_scalar : forall (one : V), one <> v0 -> forall (veqb : V -> V -> bool), (forall a b, veqb a b = true <-> a = b) ->
+  forall (A : sparse V) (c : V), wf A ->
+  wf (impl_eq_scalar isz one veqb A c) /\ sshape (impl_eq_scalar isz one veqb A c) = sshape A /\
+  forall i, inb (sshape A) i = true -> den (impl_eq_scalar isz one veqb A c) i = bval v0 one (veqb (den A i) c).
+Proof. exact (impl_eq_scalar_correct v0 isz isz_spec). Qed.
+
+Theorem C03_eq_dense : forall (one : V), one <> v0 -> forall (veqb : V -> V -> bool), (forall a b, veqb a b = true <-> a = b) ->
+  forall (A : sparse V) (T : dense V), wf A ->
+  wf (impl_eq_dense v0 isz one veqb A T) /\ sshape (impl_eq_dense v0 isz one veqb A T) = sshape A /\
+  forall i, inb (sshape A) i = true -> den (impl_eq_dense v0 isz one veqb A T) i = bval v0 one (veqb (den A i) (den_dense v0 T i)).
+Proof. exact (impl_eq_dense_correct v0 isz isz_spec). Qed.
+
+Theorem C03_ne_sparse : forall (one : V), one <> v0 -> forall (veqb : V -> V -> bool), (forall a b, veqb a b = true <-> a = b) ->
+  forall A B : sparse V, wf A -> wf B -> sshape B = sshape A ->
+  wf (impl_ne_sparse v0 one veqb A B) /\ sshape (impl_ne_sparse v0 one veqb A B) = sshape A /\
+  forall i, inb (sshape A) i = true -> den (impl_ne_sparse v0 one veqb A B) i = bval v0 one (negb (veqb (den A i) (den B i))).
+Proof. exact (impl_ne_sparse_correct v0 isz isz_spec). Qed.
+
+Theorem C03_ne_dense : forall (one : V), one <> v0 -> forall (veqb : V -> V -> bool), (forall a b, veqb a b = true <-> a = b) ->
+  forall (A : sparse V) (T : dense V), wf A ->
+  wf (impl_ne_dense v0 isz one veqb A T) /\ sshape (impl_ne_dense v0 isz one veqb A T) = sshape A /\
+  forall i, inb (sshape A) i = true -> den (impl_ne_dense v0 isz one veqb A T) i = bval v0 one (negb (veqb (den A i) (den_dense v0 T i))).
+Proof. exact (impl_ne_dense_correct v0 isz isz_spec). Qed.
+
+(* ---- division by a scalar (0 included; NaN positions through the generated tt_setdiff_rows), for ANY quotient function dv
+        into ANY result type X whose zero x0 is 0/c (c <> 0) and whose fill value xnan is 0/0 ---- *)
+Theorem C03_div_scalar : forall (X : Type) (x0 : X) (dv : V -> V -> X) (xnan : X) (A : sparse V) (c : V),
+  wf A -> sshape A <> [] -> (c <> v0 -> dv v0 c = x0) -> (c = v0 -> dv v0 c = xnan) ->
+  exists R, impl_div_scalar_gen isz dv xnan A c = Ok R /\ wf_struct R /\ sshape R = sshape A /\
+            forall i, inb (sshape A) i = true -> den_sp x0 R i = dv (den A i) c.
+Proof. intros X. exact (@impl_div_scalar_gen_correct V v0 isz isz_spec X). Qed.
 End C03.
 
-(* finding A-06: the code as it is (position pairing over the GENERATED tt_intersect_rows) is refuted *)
-Theorem C03_mul_sparse_asis_refuted : ~ mul_asis_stmt.
-Proof. exact mul_asis_refuted. Qed.
+(* ---- exact index contracts of the GENERATED row-set helpers on duplicate-free subscript lists of N >= 1 columns ---- *)
+Theorem C03_rows_intersect : forall N, (0 < N)%nat -> forall l1 l2 : list idx,
+  NoDup l1 -> NoDup l2 -> width N l1 -> width N l2 ->
+  tt_intersect_rows (zrows l1) (zrows l2) = Ok (map (fun i => Z.of_nat (pos i l1)) (filter (fun i => mem i l1) l2)).
+Proof. exact intersect_rows_idx. Qed.
+
+Theorem C03_rows_setdiff : forall N, (0 < N)%nat -> forall l1 l2 : list idx,
+  NoDup l1 -> NoDup l2 -> width N l1 -> width N l2 ->
+  tt_setdiff_rows (zrows l1) (zrows l2) = Ok (map Z.of_nat (filter (fun k => negb (mem (nth k l1 []) l2)) (seq 0 (length l1)))).
+Proof. exact setdiff_rows_idx. Qed.
+
+Theorem C03_rows_ismember : forall N, (0 < N)%nat -> forall C l2 : list idx,
+  NoDup l2 -> width N C -> width N l2 -> (forall i, In i C -> In i l2) ->
+  exists matched, tt_ismember_rows (zrows C) (zrows l2) = Ok (matched, map (fun i => Z.of_nat (pos i l2)) C).
+Proof. exact ismember_rows_idx. Qed.
+
+(* a[tt_setdiff_rows(a, b)] = the rows of a not in b, in the order of a;
+   a[tt_intersect_rows(a, b)] = the rows of b that are in a, in the order of b *)
+Theorem C03_rows_select : forall N, (0 < N)%nat -> forall l1 l2 : list idx,
+  NoDup l1 -> NoDup l2 -> width N l1 -> width N l2 ->
+  gen_diff l1 l2 = Ok (filter (fun i => negb (mem i l2)) l1) /\ gen_inter l1 l2 = Ok (filter (fun i => mem i l1) l2).
+Proof. intros N HN l1 l2 H1 H2 W1 W2. exact (conj (gen_diff_spec N HN l1 l2 H1 H2 W1 W2) (gen_inter_spec N HN l1 l2 H1 H2 W1 W2)). Qed.
+
+(* general form on integer matrices with duplicate-free rows (Proofs/C03Rows.v) *)
+Theorem C03_rows_intersect_mat : forall A B : mat, NoDup A -> NoDup B -> okw A -> okw B ->
+  exists idx, tt_intersect_rows A B = Ok idx /\ np_take [] A idx = filter (inrows A) B /\
+              length idx = length (filter (inrows A) B) /\ (forall x, In x idx -> (0 <= x < zlen A)%Z).
+Proof. exact intersect_rows_select. Qed.
+
+Theorem C03_rows_setdiff_mat : forall A B : mat, NoDup A -> NoDup B -> okw A -> okw B ->
+  tt_setdiff_rows A B = Ok (map Z.of_nat (filter (fun k => negb (existsb (row_eqb (nth k A [])) B)) (seq 0 (length A)))).
+Proof. exact setdiff_rows_positions. Qed.
+
+
+(* ---- IEEE division (Z operands, results in xval = Qc + {+inf, -inf, NaN}): x/0 = +-inf by the sign of x, 0/0 = NaN ---- *)
+Theorem C03_div_scalar_ieee : forall (A : sparse Z) (c : Z), wf_sp zisz A -> sshape A <> [] ->
+  exists R, impl_div_scalar_gen zisz xdivz XNaN A c = Ok R /\ wf_struct R /\ sshape R = sshape A /\
+            forall i, inb (sshape A) i = true -> den_sp x0 R i = xdivz (zden_sp A i) c.
+Proof. exact div_scalar_ieee. Qed.
+
+(* finding C03-N5 (open): sparse / dense divides the stored entries only *)
+Theorem C03_div_dense_refuted : ~ div_dense_stmt.
+Proof. exact div_dense_refuted. Qed.
+(* ... and is the element-wise quotient everywhere except where both operands are 0 *)
+Theorem C03_div_dense_partial : forall (A : sparse Z) (T : dense Z), wf_sp zisz A ->
+  wf_struct (impl_div_dense 0%Z xdivz A T) /\ sshape (impl_div_dense 0%Z xdivz A T) = sshape A /\
+  forall i, ~ (zden_sp A i = 0%Z /\ zden T i = 0%Z) ->
+            den_sp x0 (impl_div_dense 0%Z xdivz A T) i = xdivz (zden_sp A i) (zden T i).
+Proof. exact div_dense_ieee_partial. Qed.
 
 Print Assumptions C03_neg.
 Print Assumptions C03_ones.
@@ -154,7 +297,29 @@ Print Assumptions C03_cmp_sparse.
 Print Assumptions C03_cmp_dense.
 Print Assumptions C03_dense_result_scalar.
 Print Assumptions C03_dense_result_dense.
-Print Assumptions C03_mul_sparse_asis_refuted.
+Print Assumptions C03_mul_sparse_gen.
+Print Assumptions C03_eq_sparse_gen.
+Print Assumptions C03_ne_scalar_gen.
+Print Assumptions C03_not_gen.
+Print Assumptions C03_cmp_scalar_gen.
+Print Assumptions C03_cmp_sparse_gen.
+Print Assumptions C03_rows_intersect.
+Print Assumptions C03_rows_setdiff.
+Print Assumptions C03_rows_ismember.
+Print Assumptions C03_rows_select.
+Print Assumptions C03_rows_intersect_mat.
+Print Assumptions C03_rows_setdiff_mat.
+Print Assumptions C03_and_dense.
+Print Assumptions C03_or_xor_scalar.
+Print Assumptions C03_or_xor_dense.
+Print Assumptions C03_eq_scalar.
+Print Assumptions C03_eq_dense.
+Print Assumptions C03_ne_sparse.
+Print Assumptions C03_ne_dense.
+Print Assumptions C03_div_scalar.
+Print Assumptions C03_div_scalar_ieee.
+Print Assumptions C03_div_dense_refuted.
+Print Assumptions C03_div_dense_partial.
 
 (* non-vacuity on concrete, non-symmetric 2x3 operands stored in different (unsorted) orders *)
 Local Open Scope Z_scope.
